@@ -8,6 +8,10 @@ type WebSocketConn struct {
 	EventEmitter
 
 	*websocket.Conn
+
+	// The largest message accepted once inflated (0: no bound). Set before the
+	// connection is handed to a transport, whose reader starts at once.
+	MaxPayload int64
 }
 
 func (t *WebSocketConn) Close() error {
